@@ -27,7 +27,10 @@ ASSUMPTIONS = [
     'NestedTransformer is only claimed for None, handles that differ from the key in non-traversable fields, and sibling-window keys',
     'tuple handles contain only fresh nodes and the key itself; keys of MaskedTransformer mappers are leaves met while switched on',
     'with rebuild_scopes=False a ScopedNode is updated in place by design: "original unchanged" is asserted outside scoped nodes only',
-    'source invalidation is checked only in the documented direction (ancestors of a source-less replacement are invalid; invalidate_source=False retains sources)',
+    'source invalidation is checked only in the documented direction (ancestors of a source-less replacement are invalid; invalidate_source=False retains sources); '
+    'the source status of a scoped node that is updated in place by design belongs to that in-place update',
+    'in-place mode: an internal node with an equal duplicate is never drawn as self-containing-tuple key or as start/stop node '
+    '(listed known finding; such a request also puts one node object at two tree positions, which are then updated twice)',
 ]
 SHARDS = {'quick': 8, 'thorough': 16}
 BUDGET = {'quick': 45, 'thorough': 1200}
@@ -68,6 +71,24 @@ def _tree_strategy(thorough, assoc, elif_ok):
     return _TREES[key]
 
 
+def _djcount(idx):
+    cnt = {}
+    for e in idx:
+        dj = _dj(e['d'])
+        cnt[dj] = cnt.get(dj, 0) + 1
+    return cnt
+
+
+def _inplace_dup_hazard(idx, djcount, i):
+    """
+    node i has descendants (an in-place update can change its content, hence its hash and what it equals) and an
+    equal duplicate elsewhere in the tree: if such a node stays in the tree while it serves as a lookup key (mapper key
+    kept through a self-containing tuple; start/stop node of a masked transformer), loki no longer matches the
+    duplicate once the first occurrence was updated in place (known finding, see known_findings.d/C14.txt)
+    """
+    return idx[i]['size'] > 1 and djcount[_dj(idx[i]['d'])] > 1
+
+
 @st.composite
 def case_strategy(draw, thorough=False):
     mode = draw(st.sampled_from(['T', 'T', 'T', 'T', 'N', 'N', 'M', 'M', 'NM', 'NM']))
@@ -75,13 +96,16 @@ def case_strategy(draw, thorough=False):
     if mode in ('M', 'NM'):
         elif_ok = draw(st.integers(0, 9)) < 2
     if mode == 'NM' and draw(st.integers(0, 9)) < 7:
-        assoc = False
+        assoc = False       # known finding C14:NM:scoped-node-not-handled-as-internal-node: mostly excluded by construction
     tree = draw(_tree_strategy(thorough, assoc, elif_ok))
     idx = index_desc(tree)
     n = len(idx)
     counter = [0]
     elif_descs = {_dj(e['d']) for e in idx if e['elif_child']}
+    djcount = _djcount(idx)
     case = {'tree': tree, 'mode': mode, 'root': draw(st.sampled_from(['node', 'node', 'tuple'])), 'map': [], 'opts': {}}
+    if not assoc:
+        case['excluded_nm_assoc'] = 1
     b = st.booleans()
     pct = lambda p: draw(st.integers(0, 99)) < p   # noqa
 
@@ -145,11 +169,19 @@ def case_strategy(draw, thorough=False):
                     if case['opts']['inplace'] and items.count('self') > 1:
                         # the same object would be updated in place twice: not a meaningful request
                         items = ['self'] + [x for x in items if x != 'self']
+                    if case['opts']['inplace'] and 'self' in items and _inplace_dup_hazard(idx, djcount, i):
+                        # known finding C14:inplace:updated-key-node-no-longer-matches-equal-duplicate: excluded by construction
+                        case['excluded_inplace_dup_keys'] = case.get('excluded_inplace_dup_keys', 0) + 1
+                        continue
                     h = {'t': items}
                 elif t < 73:
                     j = draw(st.integers(1, n - 1))
                     if j == i or (case['opts']['inplace'] and idx[j]['size'] > 1):
                         continue       # in-place: the copy would share (mutated) children with the original
+                    if not case['opts']['rebuild_scopes'] and any(idx[x]['kind'] == 'Associate' for x in range(j, j + idx[j]['size'])):
+                        # scoped nodes are updated in place by design: the handle would share an Associate that is
+                        # mutated when it is visited at its original position (a cycle if j is an ancestor of the key)
+                        continue
                     h = {'o': j}
                 elif t < 81:
                     counter[0] += 1
@@ -177,6 +209,13 @@ def case_strategy(draw, thorough=False):
         pick = st.sampled_from(ok)
         start = draw(st.lists(pick, max_size=3, unique=True))
         stop = draw(st.lists(pick, max_size=2, unique=True))
+        if case['opts']['inplace']:
+            # known finding C14:inplace:updated-key-node-no-longer-matches-equal-duplicate: excluded by construction
+            nex = sum(_inplace_dup_hazard(idx, djcount, i) for i in start + stop)
+            if nex:
+                case['excluded_inplace_dup_keys'] = nex
+                start = [i for i in start if not _inplace_dup_hazard(idx, djcount, i)]
+                stop = [i for i in stop if not _inplace_dup_hazard(idx, djcount, i)]
         msk = {'start': start, 'stop': stop, 'active': pct(30), 'all': pct(20), 'greedy': pct(20)}
         if msk['all'] or msk['greedy']:
             sd = {_dj(idx[i]['d']) for i in start}
@@ -454,6 +493,11 @@ def check_case(case, ctx):
         classes.append('window=whole-branch-body')     # (regression shape of fix 78cd4a1)
 
     ctx.case(case, nontrivial, classes)
+    if case.get('excluded_inplace_dup_keys'):
+        ctx.exclude('in-place mode: internal node with an equal duplicate drawn as self-containing-tuple key or start/stop node '
+                    '(known: C14:inplace:updated-key-node-no-longer-matches-equal-duplicate)', case['excluded_inplace_dup_keys'])
+    if case.get('excluded_nm_assoc'):
+        ctx.exclude('NestedMaskedTransformer tree drawn without ASSOCIATE blocks (known: C14:NM:scoped-node-not-handled-as-internal-node)')
     if case.get('excluded_elif_keys'):
         ctx.exclude('ELSE IF conditional of a has_elseif chain drawn as mapping key (known: C14:else-if-branch-removed-from-has_elseif-conditional)',
                     case['excluded_elif_keys'])
@@ -480,9 +524,19 @@ def check_case(case, ctx):
         cls = MaskedTransformer if mode == 'M' else NestedMaskedTransformer
         make = lambda: cls(**kw)   # noqa
 
+    djc = _djcount(idx)
+    if mode in ('T', 'N'):
+        lookup_nodes = [ent['key'] for ent in case['map'] if 'key' in ent and isinstance(ent['h'], dict) and 'self' in ent['h'].get('t', ())]
+    else:
+        lookup_nodes = case['masked']['start'] + case['masked']['stop']
+    inplace_dup = bool(opts.get('inplace')) and any(_inplace_dup_hazard(idx, djc, i) for i in lookup_nodes)
+
     def special_sig():
         if flags['elseif']:
             return 'C14:else-if-branch-removed-from-has_elseif-conditional'
+        if inplace_dup:
+            # never generated by the search (excluded by construction); only the committed replay gets here
+            return 'C14:inplace:updated-key-node-no-longer-matches-equal-duplicate'
         if refobj is not None and mode == 'NM' and refobj.scoped_seen:
             return 'C14:NM:scoped-node-not-handled-as-internal-node'
         if mode == 'N' and win_internal and opts.get('sources') and opts.get('invalidate_source'):
@@ -494,6 +548,8 @@ def check_case(case, ctx):
         result = t.visit(target)
     except Exception as e:  # noqa  (the statement implies totality on its domain; includes RecursionError)
         sig = special_sig()
+        if sig is None and isinstance(e, RecursionError):
+            sig = f'C14:{mode}:raises:RecursionError'       # (the innermost frame of a recursion overflow is arbitrary)
         if sig is None:
             sig = f'C14:{mode}:raises:{exc_bucket(e)}'
         ctx.fail(sig, case, f'{type(e).__name__}: {str(e)[:300]}')
